@@ -292,6 +292,7 @@ func runC19(c *eng.Ctx) {
 	// ---- R19.5 routes to disabled
 	c.Rule("R19.5", "K6")
 	ruleTelemetrySectionIsTakenKeyByKey(c)
+	ruleTelemetrySwitchSkippedOnlyWhenKeyAbsent(c)
 	c.Rule("R19.2", "K2")
 	ruleStopAlwaysStopsTheCollector(c)
 	// (file) key agreement for telemetry.enabled
